@@ -312,3 +312,70 @@ func (p *PipeEnd) RemoteAddr() net.Addr               { return addr(p.peer.name)
 func (p *PipeEnd) SetDeadline(t time.Time) error      { return nil }
 func (p *PipeEnd) SetReadDeadline(t time.Time) error  { return nil }
 func (p *PipeEnd) SetWriteDeadline(t time.Time) error { return nil }
+
+// BlockingPipe is a buffered in-memory duplex connection with really blocking reads (sync.Cond), for peers that run on
+// their own goroutine outside the scheduler. Writes never block (unbounded buffer), so a peer that writes more than it
+// should cannot wedge the other side; Close wakes readers with EOF.
+type BlockingPipe struct {
+	mu     *sync.Mutex
+	cond   *sync.Cond
+	buf    []byte
+	closed bool
+	peer   *BlockingPipe
+	name   string
+}
+
+// NewBlockingPipe returns two connected ends.
+func NewBlockingPipe(name string) (*BlockingPipe, *BlockingPipe) {
+	mu := &sync.Mutex{}
+	a := &BlockingPipe{mu: mu, cond: sync.NewCond(mu), name: name + "/a"}
+	b := &BlockingPipe{mu: mu, cond: sync.NewCond(mu), name: name + "/b"}
+	a.peer, b.peer = b, a
+	return a, b
+}
+
+func (p *BlockingPipe) Read(b []byte) (int, error) {
+	p.mu.Lock()
+	defer p.mu.Unlock()
+	for len(p.buf) == 0 {
+		if p.closed {
+			return 0, net.ErrClosed
+		}
+		if p.peer.closed {
+			return 0, io.EOF
+		}
+		p.cond.Wait()
+	}
+	n := copy(b, p.buf)
+	p.buf = p.buf[n:]
+	return n, nil
+}
+
+func (p *BlockingPipe) Write(b []byte) (int, error) {
+	p.mu.Lock()
+	defer p.mu.Unlock()
+	if p.closed {
+		return 0, net.ErrClosed
+	}
+	if p.peer.closed {
+		return 0, io.ErrClosedPipe
+	}
+	p.peer.buf = append(p.peer.buf, b...)
+	p.peer.cond.Broadcast()
+	return len(b), nil
+}
+
+func (p *BlockingPipe) Close() error {
+	p.mu.Lock()
+	defer p.mu.Unlock()
+	p.closed = true
+	p.cond.Broadcast()
+	p.peer.cond.Broadcast()
+	return nil
+}
+
+func (p *BlockingPipe) LocalAddr() net.Addr                { return addr(p.name) }
+func (p *BlockingPipe) RemoteAddr() net.Addr               { return addr(p.peer.name) }
+func (p *BlockingPipe) SetDeadline(t time.Time) error      { return nil }
+func (p *BlockingPipe) SetReadDeadline(t time.Time) error  { return nil }
+func (p *BlockingPipe) SetWriteDeadline(t time.Time) error { return nil }
